@@ -319,6 +319,10 @@ func (d *Document) getOrCreateNumbering(config *ListConfig) string {
 
 	// 生成抽象编号键
 	abstractKey := fmt.Sprintf("%s_%s_%d", config.Type, config.BulletSymbol, config.IndentLevel)
+	if config.Type != ListTypeBullet {
+		// 起始编号是级别定义的一部分：不同的起始编号不能共用同一个抽象编号
+		abstractKey = fmt.Sprintf("%s_%d", abstractKey, config.StartNumber)
+	}
 
 	verifPoint("numbering.lookup")
 	// 检查是否已存在抽象编号
